@@ -32,7 +32,27 @@ func isReaderType(t types.Type) bool {
 	case "io.Reader", "io.Writer", "bytes.Buffer", "bytes.Reader":
 		return true
 	}
+	// a type defined as bytes.Buffer (`type efibytes bytes.Buffer`): the same representation
+	if _, isStruct := n.Underlying().(*types.Struct); isStruct {
+		for _, imp := range n.Obj().Pkg().Imports() {
+			if imp.Path() == "bytes" {
+				if bo := imp.Scope().Lookup("Buffer"); bo != nil && types.Identical(n.Underlying(), bo.Type().Underlying()) {
+					return true
+				}
+			}
+		}
+	}
 	return false
+}
+
+// isCursorPtr: *cryptobyte.String — a parser cursor that the callee advances
+func isCursorPtr(t types.Type) bool {
+	p, ok := t.(*types.Pointer)
+	if !ok {
+		return false
+	}
+	n, ok := p.Elem().(*types.Named)
+	return ok && n.Obj().Pkg() != nil && n.Obj().Pkg().Path() == "golang.org/x/crypto/cryptobyte" && n.Obj().Name() == "String"
 }
 
 func errName(v *types.Var) string {
@@ -99,6 +119,17 @@ func computeMutParams() {
 		changed = false
 		for _, fd := range targets {
 			if fd.opaque {
+				// an external function may do anything with a reader / parser cursor that it is handed: every
+				// such parameter comes back as a new value
+				if fd.mutParams == nil {
+					sig := fd.obj.Type().(*types.Signature)
+					for i := 0; i < sig.Params().Len(); i++ {
+						if pt := sig.Params().At(i).Type(); isReaderType(pt) || isCursorPtr(pt) {
+							fd.mutParams = append(fd.mutParams, i)
+							changed = true
+						}
+					}
+				}
 				continue
 			}
 			sig := fd.obj.Type().(*types.Signature)
@@ -432,9 +463,58 @@ func (t *fnTrans) effectCall(c *ast.CallExpr) (string, []string, bool) {
 			return t.closureCall(ci, c)
 		}
 	}
+	if recv, fo, ok := t.ifaceCall(c); ok {
+		// a method of an interface value that is handed a buffer/reader: the buffer comes back as a new value
+		sig := fo.Type().(*types.Signature)
+		_, mut := ifaceMethodType(c, sig)
+		if len(mut) == 0 {
+			return "", nil, false
+		}
+		parts := []string{t.expr(recv) + "." + lname(fo.Name()), t.siteIndex(c)}
+		for _, a := range c.Args {
+			parts = append(parts, t.expr(a))
+		}
+		tmp := t.fresh("r")
+		var b strings.Builder
+		fmt.Fprintf(&b, "let %s := %s\n", tmp, strings.Join(parts, " "))
+		nres := sig.Results().Len()
+		total := nres + len(mut)
+		for k, i := range mut {
+			b.WriteString(t.assign(c.Args[i], c.Args[i], tupleProj(tmp, k, total)))
+		}
+		var vals []string
+		for i := 0; i < nres; i++ {
+			vals = append(vals, tupleProj(tmp, len(mut)+i, total))
+		}
+		return b.String(), vals, true
+	}
 	fd, recv := t.callee(c)
 	if fd == nil || !fd.effectful() {
 		return "", nil, false
+	}
+	if fd.opaque {
+		// an external function that changes an argument (ParseContentInfo advances its *cryptobyte.String)
+		t.useOpaque(c, fd)
+		parts := []string{"X." + fd.extField(t.fd.pi.short)}
+		if recv != nil {
+			parts = append(parts, t.expr(recv))
+		}
+		for _, a := range c.Args {
+			parts = append(parts, t.expr(a))
+		}
+		tmp := t.fresh("r")
+		var b strings.Builder
+		fmt.Fprintf(&b, "let %s := %s\n", tmp, strings.Join(parts, " "))
+		nres := fd.obj.Type().(*types.Signature).Results().Len()
+		total := nres + len(fd.mutParams)
+		for k, i := range fd.mutParams {
+			b.WriteString(t.assign(c.Args[i], c.Args[i], tupleProj(tmp, k, total)))
+		}
+		var vals []string
+		for i := 0; i < nres; i++ {
+			vals = append(vals, tupleProj(tmp, len(fd.mutParams)+i, total))
+		}
+		return b.String(), vals, true
 	}
 	t.deps[fd.leanName] = true
 	parts := []string{fd.leanName}
@@ -517,7 +597,7 @@ func (t *fnTrans) defineClosure(id *ast.Ident, fl *ast.FuncLit) {
 	t.closures[o] = ci
 	// translate the body now, as a helper definition
 	sub := &fnTrans{fd: t.fd, pi: t.pi, names: t.names, used: t.used, deps: t.deps, alias: t.alias, keyConst: t.keyConst,
-		closures: t.closures, parent: t, nloop: 0}
+		closures: t.closures, parent: t, nloop: 0, ifaceLits: t.ifaceLits}
 	sub.closureName = ci.leanName
 	sig := t.pi.info.Types[fl].Type.(*types.Signature)
 	var params []string
@@ -601,10 +681,19 @@ func (t *fnTrans) closureCall(ci *closureInfo, c *ast.CallExpr) (string, []strin
 // ---- range over a literal list of pointers: unrolled ------------------------------------------
 
 func isUnrollable(t *fnTrans, x *ast.RangeStmt) bool {
+	if id, ok := x.X.(*ast.Ident); ok && t.ifaceLits != nil {
+		if _, ok := t.ifaceLits[t.pi.info.Uses[id]]; ok {
+			return true
+		}
+	}
 	cl, ok := x.X.(*ast.CompositeLit)
 	if !ok {
 		return false
 	}
+	return isIfaceSliceLit(t, cl)
+}
+
+func isIfaceSliceLit(t *fnTrans, cl *ast.CompositeLit) bool {
 	sl, ok := t.typeOf(cl).Underlying().(*types.Slice)
 	if !ok {
 		return false
@@ -613,8 +702,45 @@ func isUnrollable(t *fnTrans, x *ast.RangeStmt) bool {
 	return isIface
 }
 
+// defineIfaceLit: `x := []interface{}{a, b, …}` (values, no pointers) bound to a local variable. The elements are
+// evaluated where the literal stands and bound to x_0, x_1, …; the variable itself has no Lean counterpart, it
+// may only be ranged over (the loop is unrolled over x_0, x_1, …).
+func (t *fnTrans) defineIfaceLit(id *ast.Ident, cl *ast.CompositeLit) string {
+	o := t.pi.info.Defs[id]
+	if o == nil {
+		fail(id, "redefinition of an []interface{} variable")
+	}
+	var b strings.Builder
+	var elems []ast.Expr
+	for k, el := range cl.Elts {
+		if _, kv := el.(*ast.KeyValueExpr); kv {
+			fail(el, "keyed []interface{} literal")
+		}
+		et := t.typeOf(el)
+		if _, isPtr := et.(*types.Pointer); isPtr {
+			fail(el, "pointer in an []interface{} literal that is bound to a variable")
+		}
+		if _, isI := et.Underlying().(*types.Interface); isI {
+			fail(el, "interface value in an []interface{} literal")
+		}
+		v := types.NewVar(el.Pos(), t.pi.pkg, fmt.Sprintf("%s_%d", id.Name, k), et)
+		nm := t.name(v)
+		sid := &ast.Ident{Name: nm, NamePos: el.Pos()}
+		t.pi.info.Uses[sid] = v
+		fmt.Fprintf(&b, "let %s : %s := %s\n", nm, leanType(el, et), t.expr(el))
+		elems = append(elems, sid)
+	}
+	t.ifaceLits[o] = elems
+	return b.String()
+}
+
 func (t *fnTrans) unrolledRange(x *ast.RangeStmt, after []ast.Stmt, c ctx) string {
-	cl := x.X.(*ast.CompositeLit)
+	var elts []ast.Expr
+	if id, ok := x.X.(*ast.Ident); ok {
+		elts = t.ifaceLits[t.pi.info.Uses[id]]
+	} else {
+		elts = x.X.(*ast.CompositeLit).Elts
+	}
 	var keyObj, valObj types.Object
 	if id, ok := x.Key.(*ast.Ident); ok && id.Name != "_" {
 		keyObj = t.pi.info.Defs[id]
@@ -627,14 +753,14 @@ func (t *fnTrans) unrolledRange(x *ast.RangeStmt, after []ast.Stmt, c ctx) strin
 	afterCode := func() string { return t.block(after, c) }
 	var iter func(k int) string
 	iter = func(k int) string {
-		if k == len(cl.Elts) {
+		if k == len(elts) {
 			return afterCode()
 		}
 		if keyObj != nil {
 			t.keyConst[keyObj] = k
 		}
 		if valObj != nil {
-			t.alias[valObj] = cl.Elts[k]
+			t.alias[valObj] = elts[k]
 		}
 		next := func() string { return iter(k + 1) }
 		lc := &loopCtx{cont: next, brk: afterCode}
